@@ -110,7 +110,7 @@ def trimDot (b : Bytes) : Bytes :=
 /-- Inner loop of `findSniExtension` over the server-name list: `some name` when a `host_name`
 entry is found, `none` when the list is exhausted. -/
 def sniLoop (s : Loc) (iNext : Nat) (j : Nat) : Except Err (Option Bytes) :=
-  if h : j + 3 ≤ iNext then
+  if _h : j + 3 ≤ iNext then
     match s.range j (j + 3) with
     | .error e => .error e
     | .ok b =>
@@ -127,7 +127,7 @@ decreasing_by omega
 
 /-- `findSniExtension`, started at index `i`. -/
 def findSniFrom (s : Loc) (i : Nat) : Except Err Bytes :=
-  if h1 : i + 4 ≥ s.len then .error .notFound
+  if _h1 : i + 4 ≥ s.len then .error .notFound
   else
     match s.range i (i + 4) with
     | .error e => .error e
@@ -135,8 +135,9 @@ def findSniFrom (s : Loc) (i : Nat) : Except Err Bytes :=
       let typ := be16 (b.getD 0 0) (b.getD 1 0)
       let extLength := be16 (b.getD 2 0) (b.getD 3 0)
       let iNext := i + 4 + extLength
-      if h2 : iNext > s.len then .error .notApplicable
+      if _h2 : iNext > s.len then .error .notApplicable
       else if typ = 0 then
+        if extLength < 2 then .error .notApplicable else
         match s.range (i + 4) (i + 6) with
         | .error e => .error e
         | .ok b2 =>
@@ -337,9 +338,10 @@ deriving Repr
 
 /-- The `for` loop of `SniffTcp` (stream case, read-deadline path): one `readStreamOnce` per event. -/
 def sniffLoop (buf : Bytes) (nm : Bool) : List Ev → TcpOutcome
-  | [] => ⟨.error .timeout, nm, buf, some .timeout, []⟩           -- armed read after the script: timeout
-  | .stall :: rest => ⟨.error .timeout, nm, buf, some .timeout, rest⟩
-  | .rst :: rest => ⟨.error .ioError, nm, buf, some .ioError, rest⟩
+  -- the sniffer's own deadline: reported, but not latched in `dataError` (fix 9872939)
+  | [] => ⟨.error .timeout, nm, buf, none, []⟩                    -- armed read after the script
+  | .stall :: rest => ⟨.error .timeout, nm, buf, none, rest⟩
+  | .rst :: rest => ⟨.error .ioError, nm, buf, some .ioError, .rst :: rest⟩   -- a reset is sticky
   | .eof :: rest =>
     if buf = [] then ⟨.error .notApplicable, nm, buf, none, rest⟩
     else match sniffGroupTcp buf with
@@ -393,5 +395,223 @@ def clientEnd : List Ev → Option Err
   | .stall :: rest => clientEnd rest
   | .eof :: _ => none
   | .rst :: _ => some .ioError
+
+/-! ## QUIC: varints, CRYPTO reassembly (`quicutils/binary.go`, `relocation.go`) -/
+
+/-- `BigEndianUvarint`: value and encoded size. -/
+def uvarint (b : Bytes) : Except Err (Nat × Nat) :=
+  match b with
+  | [] => .error .unexpectedEOF
+  | b0 :: _ =>
+    let n := 2 ^ (b0 / 64)
+    if b.length < n then .error .unexpectedEOF
+    else .ok (((b.take n).drop 1).foldl (fun x y => x * 256 + y) (b0 % 64), n)
+
+/-- `ExtractCryptoFrameOffset`: the CRYPTO frame (if the frame is one) and the frame size. -/
+def extractFrame (rem : Bytes) : Except Err (Option Block × Nat) :=
+  match uvarint rem with
+  | .error e => .error e
+  | .ok (ft, nf) =>
+    if ft = 1 then .ok (none, nf)
+    else if ft = 0 then .ok (none, nf + ((rem.drop nf).takeWhile (· == 0)).length)
+    else if ft = 6 then
+      match uvarint (rem.drop nf) with
+      | .error e => .error e
+      | .ok (off, n1) =>
+        match uvarint (rem.drop (nf + n1)) with
+        | .error e => .error e
+        | .ok (len, n2) =>
+          let st := nf + n1 + n2
+          if st + len > rem.length then .error .unexpectedEOF
+          else .ok (some ⟨off, slice rem st (st + len)⟩, st + len)
+    else if ft = 0x1c ∨ ft = 0x1d then .error .closed
+    else .error .unknownFrame
+
+/-- The frame loop of `ReassembleCryptos` (fuel = payload length; every frame has size ≥ 1). -/
+def parseFrames : Nat → Bytes → Except Err (List Block)
+  | 0, _ => .ok []
+  | fuel + 1, p =>
+    if p = [] then .ok []
+    else match extractFrame p with
+      | .error e => .error e
+      | .ok (ob, sz) =>
+        match parseFrames fuel (p.drop sz) with
+        | .error e => .error e
+        | .ok rest => .ok (ob.toList ++ rest)
+
+/-- Stable insertion sort by offset (stands in for `sort.Slice`; see design note for ties). -/
+def insertBlock (x : Block) : List Block → List Block
+  | [] => [x]
+  | y :: ys => if x.off ≤ y.off then x :: y :: ys else y :: insertBlock x ys
+
+def sortBlocks : List Block → List Block
+  | [] => []
+  | x :: xs => insertBlock x (sortBlocks xs)
+
+/-- The merge loop: `cur` is `current`, the list is what is left of the sorted offsets. -/
+def mergeInto (cur : Block) : List Block → List Block
+  | [] => [cur]
+  | nx :: rest =>
+    if nx.off ≤ cur.stop then
+      if nx.stop > cur.stop then
+        mergeInto ⟨cur.off, cur.data ++ nx.data.drop (cur.stop - nx.off)⟩ rest
+      else mergeInto cur rest
+    else cur :: mergeInto nx rest
+
+def mergeBlocks : List Block → List Block
+  | [] => []
+  | b :: rest => mergeInto b rest
+
+/-- `ReassembleCryptos(offsets, newPayload)`. -/
+def reassemble (offsets : List Block) (payload : Bytes) : Except Err (List Block) :=
+  match parseFrames payload.length payload with
+  | .error e => .error e
+  | .ok new => .ok (mergeBlocks (sortBlocks (offsets ++ new)))
+
+/-- `NewLinearLocator`. -/
+def newLinear (o : List Block) : Loc :=
+  match o.getLast? with
+  | none => .linear [] 0 0
+  | some l => .linear o 0 l.stop
+
+/-! ## QUIC Initial packets (`quic.go`) -/
+
+/-- What header-unprotection + AEAD answer (trusted oracle, supplied per run by the packet
+generator): for the packet that starts at absolute buffer offset `start`, with packet-number
+offset `pnOff` and end `stop` relative to it and the given destination connection id, the
+plaintext frames.  Every other query fails to authenticate. -/
+structure Sealed where
+  start : Nat
+  pnOff : Nat
+  stop : Nat
+  dcid : Bytes
+  plain : Bytes
+deriving Repr, Inhabited
+
+def oracleLookup (o : List Sealed) (start pnOff stop : Nat) (dcid : Bytes) : Option Bytes :=
+  match o.find? (fun e => e.start == start && e.pnOff == pnOff && e.stop == stop && e.dcid == dcid) with
+  | some e => some e.plain
+  | none => none
+
+/-- `isQuicInitialPacketType`: Initial is long-packet-type 0 in QUIC v1 (and drafts), 1 in QUIC v2
+(version `0x6b3343cf`, RFC 9369 §3.2). -/
+def isInitialType (buf : Bytes) : Bool :=
+  let typ := buf.getD 0 0 / 16 % 4
+  if [buf.getD 1 0, buf.getD 2 0, buf.getD 3 0, buf.getD 4 0] == [0x6b, 0x33, 0x43, 0xcf] then typ == 1
+  else typ == 0
+
+/-- `IsLikelyQuicInitialPacket`. -/
+def isLikelyQuic (buf : Bytes) : Bool :=
+  if buf.length < 7 then false
+  else buf.getD 0 0 / 128 % 2 == 1 && isInitialType buf
+
+/-- Header walk of `sniffQuicBlock`: `(pnOffset, blockEnd, dcid)` or not applicable. -/
+def quicHeader (buf : Bytes) : Option (Nat × Nat × Bytes) :=
+  if buf.length < 6 then none else
+  let f := buf.getD 0 0
+  if f / 128 % 4 ≠ 1 then none else
+  if !isInitialType buf then none else
+  let dl := buf.getD 5 0
+  let bd1 := 6 + dl + 1
+  if buf.length < bd1 then none else
+  let dcid := slice buf 6 (6 + dl)
+  let sl := buf.getD (bd1 - 1) 0
+  let bd2 := bd1 + sl + 8
+  if buf.length < bd2 then none else
+  match uvarint (buf.drop (bd2 - 8)) with
+  | .error _ => none
+  | .ok (tokLen, n) =>
+    let bd3 := bd2 - 8 + n + tokLen + 8
+    if buf.length < bd3 then none else
+    match uvarint (buf.drop (bd3 - 8)) with
+    | .error _ => none
+    | .ok (length, n2) =>
+      let bd4 := bd3 - 8 + n2
+      let blockEnd := bd4 + length
+      if buf.length < blockEnd then none else
+      if buf.length < bd4 + 4 then none else
+      some (bd4, blockEnd, dcid)
+
+/-- `sniffQuicBlock`: new crypto list and the rest of the datagram buffer. `absOff` is where `buf`
+starts inside `s.buf` (only used to address the oracle). -/
+def quicBlock (oracle : List Sealed) (absOff : Nat) (cryptos : List Block) (buf : Bytes) :
+    Except Err (List Block × Bytes) :=
+  match quicHeader buf with
+  | none => .error .notApplicable
+  | some (pnOff, blockEnd, dcid) =>
+    match oracleLookup oracle absOff pnOff blockEnd dcid with
+    | none => .error .notApplicable
+    | some plain =>
+      match reassemble cryptos plain with
+      | .error .closed => .error .closed
+      | .error _ => .error .notApplicable
+      | .ok new => .ok (new, buf.drop blockEnd)
+
+/-- The block loop of `SniffQuic`: the crypto list afterwards and `some e` when the function
+returns `e` before looking for the name. -/
+def quicLoop (oracle : List Sealed) (total : Nat) :
+    Nat → List Block → Bytes → Bool → List Block × Option Err
+  | 0, cryptos, _, _ => (cryptos, none)
+  | fuel + 1, cryptos, nextBlock, isQuic =>
+    match quicBlock oracle (total - nextBlock.length) cryptos nextBlock with
+    | .error .notApplicable => if isQuic then (cryptos, none) else (cryptos, some .notApplicable)
+    | .error .closed => (cryptos, some .notFound)
+    | .error e => (cryptos, some e)
+    | .ok (new, next) => if next = [] then (new, none) else quicLoop oracle total fuel new next true
+
+/-- `quicClientHelloComplete`: the reassembled CRYPTO stream covers the whole first handshake
+message (4-byte header + announced uint24 length) from offset 0 without a gap. -/
+def helloComplete : List Block → Bool
+  | [] => false
+  | b :: _ =>
+    b.off == 0 && decide (4 ≤ b.data.length) &&
+      decide (4 + (b.data.getD 1 0 * 65536 + b.data.getD 2 0 * 256 + b.data.getD 3 0) ≤ b.data.length)
+
+/-- Packet sniffer state (`Sniffer`, packet fields). -/
+structure Pkt where
+  buf : Bytes := []
+  data : List Bytes := [[]]
+  nextRead : Nat := 0
+  cryptos : List Block := []
+  needMore : Bool := false
+  sniffed : Bytes := []
+deriving Repr, Inhabited
+
+/-- `AppendData`. -/
+def Pkt.append (s : Pkt) (d : Bytes) : Pkt :=
+  { s with needMore := false, buf := s.buf ++ d, data := s.data ++ [d] }
+
+/-- `SniffUdp` (with `SniffQuic` and `sniffGroup` inlined). -/
+def Pkt.sniffUdp (oracle : List Sealed) (s : Pkt) : Except Err Bytes × Pkt :=
+  if s.sniffed ≠ [] then (.ok s.sniffed, s)
+  else if s.buf = [] then (.error .notApplicable, s)
+  else if s.cryptos = [] ∧ !isLikelyQuic (s.buf.drop s.nextRead) then (.error .notApplicable, s)
+  else
+    let nextBlock := s.buf.drop s.nextRead
+    match quicLoop oracle s.buf.length (nextBlock.length + 1) s.cryptos nextBlock false with
+    | (cr, some e) => (.error e, { s with cryptos := cr })
+    | (cr, none) =>
+      let s' := { s with cryptos := cr, nextRead := s.buf.length }
+      match extractSni (newLinear cr) with
+      | .error _ => (.error .notFound, { s' with needMore := !helloComplete cr })
+      | .ok d => (.ok (normalizeDomain d), { s' with sniffed := normalizeDomain d })
+
+/-- `CompactPacketState`. -/
+def Pkt.compact (_s : Pkt) : Pkt := {}
+
+/-! ### In-place header unprotection and its undo (`sniffQuicBlock`, the `defer`) -/
+
+def setAt (b : Bytes) (i : Nat) (v : Nat) : Bytes := b.set i v
+
+/-- What `DecryptQuic_` does to the datagram buffer: it rewrites the first byte and the
+`MaxPacketNumberLength` bytes at `pnOff` (any values: `f0`, `pn`), nothing else. -/
+def unprotectInPlace (buf : Bytes) (pnOff : Nat) (f0 : Nat) (pn : Bytes) : Bytes :=
+  let b1 := buf.set 0 f0
+  b1.take pnOff ++ (pn.take 4 ++ (b1.drop pnOff).drop (pn.take 4).length)
+
+/-- The deferred restore: `header[0] = firstByte; copy(header[boundary-4:], rawPacketNumber)`. -/
+def restoreHeader (buf : Bytes) (pnOff : Nat) (firstByte : Nat) (rawPn : Bytes) : Bytes :=
+  let b1 := buf.set 0 firstByte
+  b1.take pnOff ++ (rawPn ++ (b1.drop pnOff).drop rawPn.length)
 
 end DaeVerif.C06
